@@ -67,6 +67,7 @@ mutual
     | .mkRef _ => []
     | .ref id => [id]
     | .node _ _ _ _ items => refsItems items
+    | .typedList items => refsItems items
   def refsItems : List (Key × VE) → List Nat
     | [] => []
     | (_, v) :: r => v.refs ++ refsItems r
